@@ -5,6 +5,7 @@
 From Coq Require Import List Arith Bool Permutation.
 Import ListNotations.
 Require Import PGM.Base.Sums PGM.Model.BP PGM.Model.JTree PGM.Proofs.JTP PGM.Proofs.BPrunP PGM.Proofs.BPlinkP PGM.Proofs.JTreeP PGM.Proofs.WeightP.
+Require Import PGM.Gen.MpOrder_gen PGM.Proofs.MpOrderP.
 
 (* every input clique is contained in some elimination clique, for every elimination order that eliminates it *)
 Theorem C12_triangulation_covers attrs cliques order C : In C cliques -> NoDup C -> C <> [] -> incl C attrs -> incl C order ->
@@ -45,6 +46,17 @@ Theorem C12_schedule nbrs ncl sch : vschedb nbrs [] sch = true -> completeb ncl 
   valid_sched nbrs [] sch /\ NoDup sch /\ (forall e, In e sch -> In (snd e) (nbrs (fst e))) /\ (forall c k, c < ncl -> In k (nbrs c) -> In (k, c) sch).
 Proof. intros V C. split. now apply vschedb_spec. exact (schedule_each_direction_once nbrs ncl sch V C). Qed.
 Print Assumptions C12_schedule.
+
+(* THE SCHEDULE, FROM THE SOURCE: Gen/MpOrder_gen.v is generated on every run from JunctionTree.mp_order (junction_tree.py:23-34): the
+   nodes (both directions of every tree edge) and the dependency edges handed to networkx.  EVERY topological order of that graph - a
+   permutation of the nodes in which the source of each edge precedes its target, which is topological_sort's specification - is a
+   valid and complete schedule: each direction of each tree edge exactly once, (i,j) only after every (k,i) with k <> j. *)
+Theorem C12_src_every_topological_order_is_a_valid_schedule tree_edges nbrs sch :
+  (forall i j, In j (nbrs i) <-> In (i, j) tree_edges \/ In (j, i) tree_edges) -> NoDup (mp_order_messages tree_edges) ->
+  topological (mp_order_messages tree_edges) (mp_order_edges (mp_order_messages tree_edges)) sch ->
+  valid_sched nbrs [] sch /\ NoDup sch /\ (forall c k, In k (nbrs c) -> In (k, c) sch).
+Proof. intros H. exact (mp_order_valid tree_edges nbrs H sch). Qed.
+Print Assumptions C12_src_every_topological_order_is_a_valid_schedule.
 
 (* WHY THE MAXIMUM-WEIGHT SPANNING TREE (junction_tree.py:104-123, weights = sizes of the clique intersections) WORKS.
    For a tree t over cliques with duplicate-free scopes inside D, rooted anywhere: every node containing attribute a is either a
